@@ -243,18 +243,26 @@ Spelled(v) == CASE v.k = "num" /\ v.int -> IntAtoms(v.n) [] v.k = "bool" -> (IF 
 \* except a STRING compared with a number / boolean / null of the same spelling ("0" == 0), which the documentation
 \* does not decide
 ScalarEq(a, b) ==
-  IF a.k = "num" /\ b.k = "num" /\ a.int # b.int /\ a.n * b.d = b.n * a.d THEN "unspec"   \* 2 vs 2.0: by spelling
-  ELSE IF a.k = "str" /\ b.k # "str" THEN (IF a.s = Spelled(b) \/ (b.k = "num" /\ ~b.int /\ \E i \in DOMAIN a.s : IsDigitAtom(a.s[i])) THEN "unspec" ELSE "f")
+  IF a.k = "str" /\ b.k # "str" THEN (IF a.s = Spelled(b) \/ (b.k = "num" /\ ~b.int /\ \E i \in DOMAIN a.s : IsDigitAtom(a.s[i])) THEN "unspec" ELSE "f")
   ELSE IF b.k = "str" /\ a.k # "str" THEN (IF b.s = Spelled(a) \/ (a.k = "num" /\ ~a.int /\ \E i \in DOMAIN b.s : IsDigitAtom(b.s[i])) THEN "unspec" ELSE "f")
   ELSE IF a.k = "num" /\ b.k = "num" THEN (IF a.n * b.d = b.n * a.d THEN "t" ELSE "f")
   ELSE IF a.k # b.k THEN "f"
   ELSE IF VEq(a, b) THEN "t" ELSE "f"
+\* maps and sequences are equal when their contents are: sequences element by element, maps entry by entry whatever the
+\* order of their keys; inside them scalars are equal when kind and value are (2 and 2.0 differ there)
+RECURSIVE StructEq(_,_)
+StructEq(a, b) ==
+  IF a.k # b.k THEN FALSE
+  ELSE IF a.k = "seq" THEN Len(a.e) = Len(b.e) /\ \A i \in DOMAIN a.e : StructEq(a.e[i], b.e[i])
+  ELSE IF a.k = "map" THEN Len(a.m) = Len(b.m) /\ \A i \in DOMAIN a.m : HasKey(b, a.m[i][1]) /\ StructEq(a.m[i][2], MapGet(b, a.m[i][1]))
+  ELSE VEq(a, b)
 EqVals(flip, oa, ob) ==
   LET res(x) == R(BoolV(IF flip THEN ~x ELSE x)) IN
   IF ~oa.some /\ ~ob.some THEN res(TRUE) ELSE IF ~oa.some THEN res(ob.v.k = "null") ELSE IF ~ob.some THEN res(oa.v.k = "null") ELSE
   LET a == oa.v  b == ob.v IN
   IF a.k = "null" THEN res(b.k = "null")
   ELSE IF IsScalar(a) /\ IsScalar(b) THEN (IF ScalarEq(a, b) = "unspec" THEN RUnspec ELSE res(ScalarEq(a, b) = "t"))
+  ELSE IF IsContainer(a) /\ IsContainer(b) THEN res(StructEq(a, b))
   ELSE res(FALSE)
 
 CmpVals(greater, oreq, oa, ob) ==
